@@ -12,9 +12,11 @@ import (
 	"fmt"
 	mrand "math/rand"
 	"strings"
+	"sync"
 	"time"
 
 	"verifharness/mon"
+	"verifharness/ref"
 	"verifharness/world"
 
 	"github.com/google/go-tdx-guest/abi"
@@ -35,6 +37,13 @@ func init() {
 		if json.Unmarshal(raw, &c) != nil {
 			return "unreadable case"
 		}
+		corpusRoots.Lock()
+		for _, der := range c.Roots {
+			if crt, err := x509.ParseCertificate(der); err == nil {
+				corpusRoots.certs = append(corpusRoots.certs, crt)
+			}
+		}
+		corpusRoots.Unlock()
 		return crashBytes(c.B)
 	}
 	Replayers["crash-msg"] = func(raw json.RawMessage) string {
@@ -64,8 +73,31 @@ func init() {
 	}
 }
 
+// corpusRoots are the roots of the generated valid quotes of the byte corpus: with them in the pool, a valid quote and every
+// mutant that leaves its chain intact get past chain validation and reach the signature and binding code.
+var corpusRoots struct {
+	sync.Mutex
+	certs []*x509.Certificate
+}
+
+func corpusRootsDER() [][]byte {
+	corpusRoots.Lock()
+	defer corpusRoots.Unlock()
+	var out [][]byte
+	for _, c := range corpusRoots.certs {
+		out = append(out, c.Raw)
+	}
+	return out
+}
+
 func baseOpts() *verify.Options {
 	p := x509.NewCertPool()
+	p.AddCert(ref.IntelRoot)
+	corpusRoots.Lock()
+	for _, c := range corpusRoots.certs {
+		p.AddCert(c)
+	}
+	corpusRoots.Unlock()
 	return &verify.Options{Getter: &world.Getter{R: map[string]world.Resp{}}, TrustedRoots: p, Now: &verify.TimeSet{PckCertChain: world.Epoch, TcbInfo: world.Epoch, QeIdentity: world.Epoch, PckCrl: world.Epoch, RootCaCrl: world.Epoch}}
 }
 
@@ -394,7 +426,7 @@ func hostileHeaders(good map[string][]string, key string, odd map[string][]byte,
 // derMutants are hostile values for the SGX extension.
 func derMutants(r *mrand.Rand, good []byte, n int) []bcase {
 	var out []bcase
-	add := func(p string, b []byte) { out = append(out, bcase{"sgx-der", p, b}) }
+	add := func(p string, b []byte) { out = append(out, bcase{Class: "sgx-der", Param: p, B: b}) }
 	add("good", good)
 	add("nil", nil)
 	add("empty", []byte{})
@@ -454,6 +486,7 @@ func c10(x *mon.Ctx) {
 	corpus := byteCorpus(x)
 	x.Each(len(corpus), func(i int) {
 		c := corpus[i]
+		c.Roots = corpusRootsDER()
 		x.Crumb(i, "crash-bytes", c)
 		p := crashBytes(c.B)
 		if p != "" {
